@@ -84,6 +84,7 @@ func installHookTransport() {
 
 // cworld is one simulated cluster with the clients the controllers use.
 type cworld struct {
+	revView []map[string]interface{} // when set: what the ControllerRevision lister shows instead of the live store (a lister that lags)
 	srv       *sim.Server
 	resources *dynamicdiscovery.ResourceMap
 	dynClient *dynamicclientset.Clientset
@@ -195,6 +196,14 @@ func (s *ctlSpec) compositeController() *v1alpha1.CompositeController {
 }
 
 // listRevisions returns the ControllerRevisions as the LIST view serves them (the informer's content).
+// cachedRevisions: what the controller's ControllerRevision lister holds
+func (w *cworld) cachedRevisions() []map[string]interface{} {
+	if w.revView != nil {
+		return w.revView
+	}
+	return w.listRevisions()
+}
+
 func (w *cworld) listRevisions() []map[string]interface{} {
 	rc, err := w.dynClient.Resource("metacontroller.k8s.io/v1alpha1", "controllerrevisions")
 	if err != nil {
@@ -236,7 +245,7 @@ var ctlCounter int
 func (w *cworld) buildPC(s *ctlSpec) (*builtPC, error) {
 	dynInformers := dynamicinformer.NewSharedInformerFactory(w.dynClient, time.Hour)
 	revIndexer := cache.NewIndexer(cache.MetaNamespaceKeyFunc, cache.Indexers{cache.NamespaceIndex: cache.MetaNamespaceIndexFunc})
-	for _, o := range w.listRevisions() {
+	for _, o := range w.cachedRevisions() {
 		cr := &v1alpha1.ControllerRevision{}
 		if err := runtime.DefaultUnstructuredConverter.FromUnstructured(o, cr); err == nil {
 			revIndexer.Add(cr)
@@ -323,7 +332,7 @@ func (w *cworld) runSync(s *ctlSpec, b *builtPC, key string) *roundRec {
 		sort.Slice(objs, func(i, j int) bool { return objKey(objs[i]) < objKey(objs[j]) })
 		rec.CacheChildren[resKey(k.Resource, k.APIVersion)] = objs
 	}
-	revs := w.listRevisions()
+	revs := w.cachedRevisions()
 	sort.Slice(revs, func(i, j int) bool { return objKey(revs[i]) < objKey(revs[j]) })
 	rec.CacheChildren["controllerrevisions.metacontroller.k8s.io/v1alpha1"] = revs
 	w.srv.ResetLog()
@@ -563,7 +572,7 @@ func (w *cworld) refreshInformers(b *builtPC) error {
 	for _, o := range b.revIndexer.List() {
 		b.revIndexer.Delete(o)
 	}
-	for _, o := range w.listRevisions() {
+	for _, o := range w.cachedRevisions() {
 		cr := &v1alpha1.ControllerRevision{}
 		if err := runtime.DefaultUnstructuredConverter.FromUnstructured(o, cr); err == nil {
 			b.revIndexer.Add(cr)
